@@ -23,7 +23,7 @@ template <class T> inline void mask_tri(T* p, size_t R, size_t C, int tag) {
 template <class T, size_t M, size_t K, size_t N, int LT, int RT>
 void tmm(Ctx& c) {
     Rng g = c.rng();
-    Tensor<T, M, K> A; Tensor<T, K, N> B; T ref[M * N];
+    VP_OPERAND((Tensor<T, M, K>), A); VP_OPERAND((Tensor<T, K, N>), B); T ref[M * N];
     for (int draw = 0; draw < 3; ++draw) {
         // non-zero entries inside the triangles so that a dropped k-term is always visible
         fill_small_nz(A.data(), M * K, g, 5); fill_small_nz(B.data(), K * N, g, 5);
@@ -43,7 +43,7 @@ void tmm(Ctx& c) {
         fill_real(A.data(), M * K, g); fill_real(B.data(), K * N, g);
         mask_tri(A.data(), M, K, LT); mask_tri(B.data(), K, N, RT);
         launder(A.data()); launder(B.data());
-        Tensor<T, M, N> C; paint(C.data(), M * N);
+        VP_OPERAND((Tensor<T, M, N>), C); paint(C.data(), M * N);
         VP_LIB((C = tmatmul<typename Tag<LT>::type, typename Tag<RT>::type>(A, B)));
         std::vector<long double> r(M * N), mag(M * N);
         c01::ref_matmul_ld(A.data(), B.data(), r.data(), mag.data(), M, K, N);
@@ -56,7 +56,7 @@ void tmm(Ctx& c) {
 template <class T, size_t M, size_t K, int LT>
 void tmv(Ctx& c) {
     Rng g = c.rng();
-    Tensor<T, M, K> A; Tensor<T, K> b; T ref[M];
+    VP_OPERAND((Tensor<T, M, K>), A); VP_OPERAND((Tensor<T, K>), b); T ref[M];
     for (int draw = 0; draw < 3; ++draw) {
         fill_small_nz(A.data(), M * K, g, 5); fill_small_nz(b.data(), K, g, 5); mask_tri(A.data(), M, K, LT); launder(A.data());
         c01::ref_matmul(A.data(), b.data(), ref, M, K, 1);
@@ -69,7 +69,7 @@ void tmv(Ctx& c) {
 template <class T, size_t K, size_t N, int RT>
 void tvm(Ctx& c) {
     Rng g = c.rng();
-    Tensor<T, K> a; Tensor<T, K, N> B; T ref[N];
+    VP_OPERAND((Tensor<T, K>), a); VP_OPERAND((Tensor<T, K, N>), B); T ref[N];
     for (int draw = 0; draw < 3; ++draw) {
         fill_small_nz(a.data(), K, g, 5); fill_small_nz(B.data(), K * N, g, 5); mask_tri(B.data(), K, N, RT); launder(B.data());
         c01::ref_matmul(a.data(), B.data(), ref, 1, K, N);
